@@ -25,7 +25,8 @@ def technique(pid):
     return t
 
 
-for pid in sorted(CHECKS):
+PIDS = sorted(p for p in CHECKS if p != "SELFTEST")
+for pid in PIDS:
     m = META[pid]
     checks.append({
         "property_id": pid,
@@ -44,7 +45,7 @@ man = {
     "hooks": {"guard": "verif", "enable": "no hooks: harnesses are injected with go/packages overlays and go test -overlay; nothing under /repo is built with a tag",
               "baseline_off_cmd": "cd /repo && go test -json -vet=off -count=1 -timeout 25m ./...",
               "source_commits": [], "add_only": True},
-    "engines": [{"name": "symgo", "path": "/verif/engine", "serves_properties": sorted(CHECKS),
+    "engines": [{"name": "symgo", "path": "/verif/engine", "serves_properties": PIDS,
                  "kind_free_text": "KLEE-style symbolic interpreter for go/ssa (built from /repo's current tree on every run), QF_UFBV terms, z3 -in with push/pop, forking by re-execution, native replay of every counterexample"}],
     "checks": checks,
     "not_applicable": [{"property_id": k, "reason": v} for k, v in sorted(NOT_APPLICABLE.items()) if k not in CHECKS],
